@@ -37,7 +37,7 @@ func c19URL(keyword string) (u, host, id string) {
 	}
 	if vx.Choose("slice", 2) == 0 {
 		// authority slice: every scheme, host prefix, host, userinfo
-		scheme = []string{"https://", "http://", "//"}[vx.Choose("scheme", 3)]
+		scheme = []string{"https://", "http://", "//", "", "/"}[vx.Choose("scheme", 5)]
 		pre = vx.NondetStringIn("hostprefix", vx.Param("prefix", 2), "w.-")
 		base = c19Hosts[vx.Choose("host", len(c19Hosts))]
 		user = []string{"", "youtube.com@", "www.twitter.com:x@", "player.vimeo.com@", "www.youtube.com&v=abc@", "player.vimeo.com&video=1:p@"}[vx.Choose("user", 6)]
@@ -54,6 +54,9 @@ func c19URL(keyword string) (u, host, id string) {
 		query = []string{"", "?a=1", "?u=https://www.youtube.com/embed/x", "?h=player.vimeo.com", "&t=1"}[vx.Choose("query", nq)]
 	}
 	host = pre + base
+	if scheme == "" || scheme == "/" {
+		defer func() { host = "" }() // relative reference: no host; nothing may be accepted
+	}
 	path := "/" + s1 + "/" + s2 + trail
 	if nopath {
 		path, s1, s2 = "", "", ""
